@@ -72,6 +72,7 @@ type Obligation struct {
 	Output  string
 	File    string
 	Info    map[string]*Term // values worth printing from a model
+	JetHyp  []*Term          // jet-level obligations: complete hypothesis list
 }
 
 type unsupported struct{ msg string }
